@@ -45,10 +45,13 @@ type c17Geom struct {
 }
 
 type c17Case struct {
-	W   int       `json:"w"`
-	H   int       `json:"h"`
-	SB  int       `json:"sb"`
-	Tab int       `json:"tab"`
+	W   int `json:"w"`
+	H   int `json:"h"`
+	SB  int `json:"sb"`
+	Tab int `json:"tab"`
+	// default colours of the recording console when TLC chose them (nil: the console configuration decides)
+	Dfg *int      `json:"dfg,omitempty"`
+	Dbg *int      `json:"dbg,omitempty"`
 	Ops [][]int64 `json:"ops"`
 	// Br: TLC's list of all operations of the scope; the case stands for Ops + [b] for every b in Br
 	Br [][]int64 `json:"br,omitempty"`
@@ -60,7 +63,8 @@ type c17Case struct {
 	Leg  string `json:"leg"`
 }
 
-// an operation: {0,b} WriteByte(b); {1,x,y} SetCursorPosition (-1 = 2^32-1); {2,a} SetState(a)
+// an operation: {0,b} WriteByte(b); {1,x,y} SetCursorPosition (-1 = 2^32-1); {2,a} SetState(a);
+// {3,b...} Write(bytes)
 func c17Arg(v int64) uint32 {
 	if v < 0 {
 		return 0xffffffff
@@ -153,6 +157,10 @@ func (l *c17Log) watchdog(limit time.Duration, progress string) {
 // c.Cfg seeds the generator the console constructor draws its configuration from.
 func c17RunCase(l *c17Log, c c17Case) {
 	g, ops, cpEvery := c17Geom{c.W, c.H, c.SB, c.Tab}, c.Ops, c.Cp
+	c17RecDefault = [2]int{-1, -1}
+	if c.Dfg != nil && c.Dbg != nil {
+		c17RecDefault = [2]int{*c.Dfg, *c.Dbg}
+	}
 	cons := VerifC18NewConsole(c.Kind, uint32(g.W), uint32(g.H), rand.New(rand.NewSource(c.Cfg)))
 	p := cons.p
 	vt := NewVT(uint8(g.Tab), uint32(g.SB))
@@ -185,6 +193,20 @@ func c17RunCase(l *c17Log, c c17Case) {
 			x, y := c17Arg(op[1]), c17Arg(op[2])
 			e["k"], e["x"], e["y"] = "cur", c17SatU32(x), c17SatU32(y)
 			f = func() string { vt.SetCursorPosition(x, y); return "ok" }
+		case 3:
+			bs, ints := make([]byte, len(op)-1), make([]int, len(op)-1)
+			for j, v := range op[1:] {
+				bs[j], ints[j] = byte(v), int(byte(v))
+			}
+			e["k"], e["bs"], e["n"] = "ws", ints, -1
+			f = func() string {
+				n, err := vt.Write(bs)
+				e["n"] = n
+				if err != nil {
+					return "err"
+				}
+				return "ok"
+			}
 		default:
 			e["k"], e["a"] = "st", int(op[1])
 			cp = true
@@ -398,6 +420,9 @@ func c17Scales(quick bool, rng *rand.Rand) []c17Scale {
 		{c17Geom{2 + rng.Intn(40), 2 + rng.Intn(10), rng.Intn(12), rng.Intn(3) * 4}, mid, 13, 60},
 		{c17Geom{3, 2, 1, 255}, 300, 7, 4}, // the widest tab a terminal can have (uint8), and the one below
 		{c17Geom{4, 3, 2, 254}, 200, 5, 4},
+		{c17Geom{2, 2, 150 + rng.Intn(200), 3}, mid * 2, 1 + mid/3, 3},                         // scrollback far longer than the viewport, used up
+		{c17Geom{132, 50, 10, 8}, mid, 151, 300},                                               // a wide text mode
+		{c17Geom{1 + rng.Intn(6), 1 + rng.Intn(4), rng.Intn(3), rng.Intn(256)}, mid / 2, 1, 8}, // any tab width
 	}
 	return s
 }
@@ -426,10 +451,26 @@ func c17Stream(rng *rand.Rand, sc c17Scale) [][]int64 {
 		}
 	}
 	printable := func() int64 {
-		if rng.Intn(12) == 0 {
-			return int64([]int{0, 1, 7, 11, 12, 14, 27, 31, 127, 128, 160, 219, 255}[rng.Intn(13)])
+		switch k := rng.Intn(12); {
+		case k == 0: // neighbours of the four control bytes, glyph-class corner cases of the cp437 fonts
+			return int64([]int{0, 1, 7, 11, 12, 14, 27, 31, 127, 128, 160, 219, 220, 221, 222, 223, 255}[rng.Intn(17)])
+		case k <= 2: // any byte value that is not one of the four control bytes
+			for {
+				if b := rng.Intn(256); b != 8 && b != 9 && b != 10 && b != 13 {
+					return int64(b)
+				}
+			}
 		}
 		return int64(33 + rng.Intn(94))
+	}
+	anyByte := func() int64 {
+		switch k := rng.Intn(10); {
+		case k < 2:
+			return '\n'
+		case k == 2:
+			return int64([]int{'\r', '\b', '\t'}[rng.Intn(3)])
+		}
+		return printable()
 	}
 	for len(ops) < sc.n {
 		switch k := rng.Intn(100); {
@@ -453,8 +494,14 @@ func c17Stream(rng *rand.Rand, sc c17Scale) [][]int64 {
 			ops = append(ops, []int64{0, '\b'})
 		case k < 86:
 			ops = append(ops, []int64{0, '\t'})
-		case k < 88:
+		case k < 87:
 			ops = append(ops, []int64{0, ' '})
+		case k < 91: // a byte stream handed over with one Write call
+			op := []int64{3}
+			for n := rng.Intn(2*g.W + 3); n > 0; n-- {
+				op = append(op, anyByte())
+			}
+			ops = append(ops, op)
 		case k < 95:
 			ops = append(ops, []int64{1, edge(g.W), edge(g.H)})
 		default:
